@@ -295,6 +295,11 @@ theorem wire_line (l : Str) (h : WellFormedLine l) :
     · rfl
   exact encChar_clean_bytes c hcl b hbc
 
+/-- a plain copy (`IrcMsg(msg=m)`, as `Misc.more`, `Utilities.let` and the emulated echo of `takeMsg`
+make) is the message itself: it serialises to the same line, so `take_line` holds through it -/
+theorem copy_without_overrides (m : C05.Msg) : ctorCopy m [] [] [] = m := by
+  cases m; rfl
+
 /-- the `msg=` branch of the constructor checks nothing: the full statement "every constructed
 message is one line" needs the inventory obligation in `out_tables_ok` -/
 theorem copy_bypasses_assertion :
